@@ -344,6 +344,8 @@ class Dense(ABC):
         return getattr(self._row, attr)
 
     def __eq__(self, o) -> bool:
+        #a string or a mapping is never a dense row (iterating them gives characters and keys)
+        if isinstance(o,(str,bytes,Sparse)): return False
         try:
             return len(self) == len(o) and all(map(eq, self, o))
         except:
@@ -363,6 +365,8 @@ class Dense_:
         return getattr(self._row, attr)
 
     def __eq__(self, o) -> bool:
+        #a string or a mapping is never a dense row (iterating them gives characters and keys)
+        if isinstance(o,(str,bytes,Sparse)): return False
         try:
             return len(self) == len(o) and all(map(eq, self, o))
         except:
